@@ -18,8 +18,9 @@ from harness.lib.core import Rng
 PROTO_NAMES = {"none": "none", "tcp": "tcp", "udp": "udp", "icmp": "icmp"}
 SVC_REQS = ["scan", "stop", "start", "pause", "resume", "restart", "disable", "enable", "fix", "compromise"]
 APP_REQS = ["scan", "close", "execute", "fix", "compromise"]
-SVC_EVS = ["start", "stop", "pause", "resume", "restart", "disable", "enable", "scan", "fix", "compromise"]
-APP_EVS = ["run", "close", "install", "scan", "fix", "compromise"]
+SVC_EVS = ["start", "stop", "pause", "resume", "restart", "disable", "enable", "scan", "fix", "compromise", "tick", "send"]
+APP_EVS = ["run", "close", "install", "scan", "fix", "compromise", "tick", "send"]
+NODE_KINDS = ["computer", "computer", "computer", "server", "router", "switch", "firewall"]
 HEALTHS = ["GOOD", "GOOD", "GOOD", "UNUSED", "COMPROMISED", "OVERWHELMED"]
 PORT_POOL = [0, 21, 22, 53, 80, 123, 219, 5432, 8080, 443]
 
@@ -91,7 +92,8 @@ def gen_case(rng: Rng, max_ops: int = 30, focus: Optional[str] = None) -> dict:
     """A mostly-valid operation sequence.  `focus` biases towards one flavour: lifecycle / registries / payload / power."""
     st, at = svc_types(), app_types()
     focus = focus or rng.choice(["lifecycle", "lifecycle", "registries", "payload", "power", "mixed"])
-    node = {"power": rng.choice(["ON", "ON", "ON", "OFF"]), "up": rng.choice([0, 1, 2, 3]), "down": rng.choice([0, 1, 2, 3])}
+    node = {"power": rng.choice(["ON", "ON", "ON", "OFF"]), "up": rng.choice([0, 1, 2, 3]), "down": rng.choice([0, 1, 2, 3]),
+            "kind": rng.choice(NODE_KINDS)}
     names = ["arp", "icmp", "dns-client", "ntp-client", "web-browser", "nmap", "user-session-manager", "user-manager", "terminal",
              "ftp-client"]
     ops: List[dict] = []
@@ -154,20 +156,22 @@ def _gen_install(rng: Rng, st: List[str], at: List[str], names: List[str]) -> di
     listen = []
     if rng.chance(1, 4):
         listen = sorted({rng.choice(PORT_POOL) for _ in range(rng.range(1, 2))})
-    op = {"op": kind, "type": t, "listen": listen, "health": rng.choice(HEALTHS), "fix": rng.choice([0, 1, 2, 2, 3])}
+    op = {"op": kind, "type": t, "listen": listen, "health": rng.choice(HEALTHS), "fix": rng.choice([0, 1, 2, 2, 3]),
+          "cfg": not rng.chance(1, 4)}  # cfg False = `install(cls)` without a software_config (class defaults)
     nm = "arp" if t == "arp" else t
     if nm not in names:
         names.append(nm)
     return op
 
 
-def exhaustive_cases(depth: int, svc_type: str, durs: Tuple[int, int]) -> List[dict]:
+def exhaustive_cases(depth: int, svc_type: str, durs: Tuple[int, int], kind: str = "computer") -> List[dict]:
     """bounded-exhaustive lifecycle sequences over one service type: every word of length `depth` over the alphabet below"""
     alpha = [{"op": "sreq", "name": svc_type, "r": r} for r in ("stop", "start", "pause", "resume", "restart", "disable", "enable")]
     alpha += [{"op": "tick"}, {"op": "rshut"}, {"op": "rstart"}]
     out = []
     for word in itertools.product(range(len(alpha)), repeat=depth):
-        out.append({"node": {"power": "ON", "up": durs[0], "down": durs[1]}, "ops": [dict(alpha[i]) for i in word], "focus": "exhaustive"})
+        out.append({"node": {"power": "ON", "up": durs[0], "down": durs[1], "kind": kind}, "ops": [dict(alpha[i]) for i in word],
+                    "focus": "exhaustive"})
     return out
 
 
@@ -177,10 +181,9 @@ class Impl:
 
     def __init__(self, node_cfg: dict, guards: Dict[str, bool]):
         load()
-        from primaite.simulator.network.hardware.nodes.host.computer import Computer
-        cfg = {"type": "computer", "hostname": "pc", "ip_address": "192.168.1.2", "subnet_mask": "255.255.255.0",
-               "start_up_duration": node_cfg["up"], "shut_down_duration": node_cfg["down"], "operating_state": node_cfg["power"]}
-        self.node = Computer.from_config(config=cfg)
+        self.kind = node_cfg.get("kind", "computer")
+        self.node = make_node(self.kind, node_cfg)
+        self.is_host = self.kind in ("computer", "server")
         self.sm = self.node.software_manager
         self.guards = guards          # class name -> has running-guard (Gen table)
         self.objs: List[Any] = []     # every software object ever created, creation order = model uid
@@ -190,9 +193,11 @@ class Impl:
         power_on = node_cfg["power"] == "ON"
         for obj in self.sm.software.values():  # insertion order = installation order of the system software
             self._adopt(obj)
-            self.model_init.append(self._install_line(obj, [], "GOOD", 2))
+            self.model_init.append(self._install_line(obj, sorted(obj.listen_on_ports), "GOOD", 2, False))
         self.dup_install = False
         self.skipped_installs = 0
+        self.refused_installs = 0
+        self.replaced_installs = 0
         self.payload_hits: List[Tuple[str, str]] = []
 
     # -- bookkeeping
@@ -224,14 +229,15 @@ class Impl:
         if g is None:
             raise RuntimeError(f"class {type(obj).__name__} missing from the Gen class table")
         ctor_runs = isinstance(obj, Application) and type(obj).__name__ in CTOR_RUNS
-        return (f"{1 if g else 0}{1 if ctor_runs else 0}{0 if type(obj).__name__ in NO_BASE_ROUTES else 1}"
+        return (f"{1 if ctor_runs else 0}{0 if type(obj).__name__ in NO_BASE_ROUTES else 1}"
                 f"{0 if type(obj).__name__ in OWN_EXECUTE else 1}")
 
-    def _install_line(self, obj, listen, health, fix) -> str:
+    def _install_line(self, obj, listen, health, fix, cfg: bool) -> str:
         from primaite.simulator.system.applications.application import Application
         k = "iapp" if isinstance(obj, Application) else "isvc"
         ls = ",".join(str(p) for p in sorted(listen)) or "-"
-        return f"{k} {obj.name} {obj.port} {obj.protocol} {self._flags(obj)} {ls} {health} {fix}"
+        return (f"{k} {type(obj).__name__} {obj.name} {obj.port} {obj.protocol} {self._flags(obj)} {1 if cfg else 0} "
+                f"{ls} {health} {fix}")
 
     # -- canonical state line (same format as `dump` of Drivers/C13.lean)
     def dump(self) -> str:
@@ -252,8 +258,10 @@ class Impl:
                 out.append(f"{k}={owner}")
             return ",".join(sorted(out))
         op = ",".join(str(p) for p in sorted(set(self.sm.get_open_ports())))
+        cm = ",".join(sorted(f"{k.__name__}={v}" for k, v in self.sm._software_class_to_name_map.items()))
         return (f"{self.node.operating_state.name} S[{' '.join(svc)}] A[{' '.join(app)}] SW[{sw}] PM[{pm}] "
-                f"SR[{routes(self.node._service_request_manager)}] AR[{routes(self.node._application_request_manager)}] OPEN[{op}]")
+                f"SR[{routes(self.node._service_request_manager)}] AR[{routes(self.node._application_request_manager)}] "
+                f"CM[{cm}] OPEN[{op}]")
 
     # -- the property's own oracles, evaluated on the implementation after every operation
     def oracle(self) -> List[Tuple[str, str]]:
@@ -262,17 +270,21 @@ class Impl:
         sw = self.sm.software
         inst = list(self.node.services.values()) + list(self.node.applications.values())
         if sorted(id(o) for o in sw.values()) != sorted(id(o) for o in inst):
-            bad.append(("registries-disagree", f"software={sorted(sw)} node.services|applications={sorted(o.name for o in inst)}"))
+            bad.append(("reg:software-vs-node", f"software={sorted(sw)} node.services|applications={sorted(o.name for o in inst)}"))
         routes = sorted(list(self.node._service_request_manager.request_types) + list(self.node._application_request_manager.request_types))
         if routes != sorted(sw):
-            bad.append(("routes-disagree", f"routes={routes} software={sorted(sw)}"))
+            bad.append(("reg:routes-vs-software", f"routes={routes} software={sorted(sw)}"))
         for k, v in self.sm.port_protocol_mapping.items():
             if sw.get(v.name) is not v:
-                bad.append(("portmap-stale", f"{k} -> {v.name} not the installed instance"))
+                bad.append(("reg:port-table-owner-not-installed", f"{k} -> {v.name} not the installed instance"))
         ds = self.node.describe_state()
         listed = sorted(list(ds["services"]) + list(ds["applications"]))
         if listed != sorted(sw):
-            bad.append(("describe-disagree", f"describe_state={listed} software={sorted(sw)}"))
+            bad.append(("reg:describe_state-vs-software", f"describe_state={listed} software={sorted(sw)}"))
+        if sorted(self.sm._software_class_to_name_map.items(), key=lambda kv: kv[1]) != \
+                sorted(((type(o), o.name) for o in sw.values()), key=lambda kv: kv[1]):
+            bad.append(("reg:class-map-vs-software", f"class map={sorted(v for v in self.sm._software_class_to_name_map.values())} "
+                                                     f"software={sorted(sw)}"))
         running_ports = set()
         for o in inst:
             if o.operating_state.name == "RUNNING":
@@ -294,13 +306,18 @@ class Impl:
             cls = reg[op["type"]]
             if op["type"] == "database-service" and not sm.software.get("ftp-client"):
                 return None, None  # DatabaseService.install would install an FTPClient itself (nested install, not modelled)
-            if any(type(o) is cls for o in list(node.services.values()) + list(node.applications.values())):
+            was_installed = any(type(o) is cls for o in list(node.services.values()) + list(node.applications.values()))
+            if was_installed:
                 self.dup_install = True
+            cfg = op.get("cfg", True)
             conf = cls.ConfigSchema(type=op["type"], listen_on_ports=set(op["listen"]), fixing_duration=op["fix"],
                                     starting_health_state=SoftwareHealthState[op["health"]])
             before = {id(o) for o in self.objs}
             try:
-                sm.install(cls, software_config=conf)
+                if cfg:
+                    sm.install(cls, software_config=conf)
+                else:
+                    sm.install(cls)
             except Exception as e:  # noqa
                 # DatabaseService / WebServer constructors re-create their files and the file system raises on the
                 # duplicate (F-25, C15's subject).  The constructor runs before any registry write: nothing changed.
@@ -309,14 +326,23 @@ class Impl:
                 self.skipped_installs += 1
                 return None, None
             new = [o for o in list(node.services.values()) + list(node.applications.values()) if id(o) not in before]
-            if len(new) != 1:
+            if len(new) > 1:
                 raise RuntimeError(f"install of {op['type']} created {len(new)} objects")
+            if not new:
+                # refused ("already installed", no configuration): the model needs the class parameters all the same
+                probe = next((o for o in self.objs if type(o) is cls), None) or _scratch_instance(cls)
+                self.refused_installs += 1
+                return "ok", self._install_line(probe, [], "GOOD", 2, cfg)
             self._adopt(new[0])
+            if was_installed:
+                self.replaced_installs += 1
             if hasattr(new[0], "configure_backup"):
                 # without a backup server, DatabaseService.restore_backup (run when a fix completes) passes dest_ip_address=None
                 # to the FTP client and AttributeError escapes apply_timestep — a database defect (C17), not a lifecycle one
                 new[0].configure_backup("192.168.1.250")
-            return "ok", self._install_line(new[0], op["listen"], op["health"], op["fix"])
+            if cfg:
+                return "ok", self._install_line(new[0], op["listen"], op["health"], op["fix"], True)
+            return "ok", self._install_line(new[0], sorted(new[0].listen_on_ports), "GOOD", 2, False)
         if k == "uninst":
             try:
                 sm.uninstall(op["name"])
@@ -331,7 +357,7 @@ class Impl:
             try:
                 r = node.apply_request(["software_manager", "application", "install", name])
                 ans = r.status
-            except KeyError:
+            except (KeyError, AttributeError):
                 ans = "raised"  # (before the request-layer repair an unknown name raised; now it answers failure)
             new = [o for o in list(node.services.values()) + list(node.applications.values()) if id(o) not in before]
             for o in new:
@@ -342,7 +368,7 @@ class Impl:
                 if probe is None:
                     probe = _scratch_instance(cls)
                 dl = ",".join(str(p) for p in sorted(_default_listen(cls))) or "-"
-                line = f"rinst {_w(name)} {probe.port} {probe.protocol} {self._flags(probe)} {dl}"
+                line = f"rinst {_w(name)} {cls.__name__} {probe.name} {probe.port} {probe.protocol} {self._flags(probe)} {dl}"
             return ans, line
         if k == "runinst":
             try:
@@ -384,6 +410,28 @@ class Impl:
                 o.config.fixing_duration = op["b"]
                 return "ret 1", f"aapi {u} setdur {op['a']} {op['b']}"
             ev = op["ev"]
+            if ev == "tick":  # apply_timestep called directly on the object
+                self.t += 1
+                try:
+                    o.apply_timestep(self.t)
+                    return "ret 1", f"{k} {u} tick"
+                except TypeError:
+                    return "raised", f"{k} {u} tick"
+            if ev == "send":  # IOSoftware.send: leaves the software only if it may act (node ON, RUNNING)
+                from primaite.simulator.system.software import IOSoftware
+                sent = []
+                sess = node.session_manager
+                orig = sess.receive_payload_from_software_manager
+                object.__setattr__(sess, "receive_payload_from_software_manager", lambda *a, **kw: (sent.append(1), True)[1])
+                try:
+                    ret = IOSoftware.send(o, payload={"junk": 1}, dest_ip_address="192.168.1.77", dest_port=o.port)
+                finally:
+                    object.__setattr__(sess, "receive_payload_from_software_manager", orig)
+                if bool(ret) != bool(sent):
+                    raise RuntimeError("send(): return value and hand-over to the session manager disagree")
+                if sent and o.operating_state.name != "RUNNING":
+                    self.payload_hits.append(("send:" + type(o).__name__, o.operating_state.name))
+                return f"ret {1 if ret else 0}", f"{k} {u} send"
             if ev == "compromise":
                 ret = o.set_health_state(SoftwareHealthState.COMPROMISED)
             else:
@@ -411,12 +459,15 @@ class Impl:
             payload = self._payload(op["scan"])
             try:
                 sm.receive_payload_from_session_manager(payload=payload, port=op["port"], protocol=op["proto"], session_id="s",
-                                                        from_network_interface=node.network_interface[1], frame=None)
+                                                        from_network_interface=next(iter(node.network_interface.values()), None),
+                                                        frame=None)
                 ans = self._recv_answer()
             except AttributeError:
                 ans = "raised"
             return ans, f"deliver {op['port']} {op['proto']} {1 if op['scan'] else 0}"
         if k == "frame":
+            if not self.is_host:
+                return None, None  # HostNode.receive_frame is what is modelled; routers/switches/firewalls forward frames (C08)
             self.recv_log.clear()
             frame = self._frame(op["hdr"], op["port"], self._payload(op["scan"]))
             ignored = []
@@ -442,7 +493,7 @@ class Impl:
         parts = []
         for o in self.recv_log:
             g = self.guards[type(o).__name__]
-            handled = bool(o._can_perform_action()) if g else True
+            handled = bool(o._can_perform_action()) if g else True  # g: the class's receive() starts with the guard (Gen table)
             if handled and o.operating_state.name != "RUNNING":
                 self.payload_hits.append((type(o).__name__, o.operating_state.name))
             parts.append(f"{self.uid(o)}:{1 if handled else 0}")
@@ -468,6 +519,31 @@ class Impl:
                          udp=UDPHeader(src_port=40000, dst_port=port), payload=payload)
         return Frame(ethernet=eth, ip=IPPacket(src_ip_address="192.168.1.9", dst_ip_address="192.168.1.2", protocol="icmp"),
                      icmp=ICMPPacket(), payload=payload)
+
+
+def make_node(kind: str, node_cfg: dict):
+    """the node under test: a host (computer / server) or a network node (router / switch / firewall)"""
+    d = {"hostname": "n_" + kind, "start_up_duration": node_cfg["up"], "shut_down_duration": node_cfg["down"],
+         "operating_state": node_cfg["power"]}
+    if kind in ("computer", "server"):
+        from primaite.simulator.network.hardware.nodes.host.computer import Computer
+        from primaite.simulator.network.hardware.nodes.host.server import Server
+        k = Computer if kind == "computer" else Server
+        return k.from_config(config={"type": kind, "ip_address": "192.168.1.2", "subnet_mask": "255.255.255.0", **d})
+    if kind == "switch":
+        from primaite.simulator.network.hardware.nodes.network.switch import Switch
+        return Switch.from_config({"type": "switch", "num_ports": 4, **d})
+    if kind == "router":
+        from primaite.simulator.network.hardware.nodes.network.router import Router
+        return Router.from_config({"type": "router", "num_ports": 3, "ports": {
+            1: {"ip_address": "192.168.1.1", "subnet_mask": "255.255.255.0"},
+            2: {"ip_address": "10.0.0.1", "subnet_mask": "255.255.255.0"}}, **d})
+    if kind == "firewall":
+        from primaite.simulator.network.hardware.nodes.network.firewall import Firewall
+        return Firewall.from_config({"type": "firewall", "ports": {
+            "external_port": {"ip_address": "10.0.0.2", "subnet_mask": "255.255.255.0"},
+            "internal_port": {"ip_address": "10.0.1.1", "subnet_mask": "255.255.255.0"}}, **d})
+    raise ValueError(kind)
 
 
 OWN_EXECUTE: set = set()     # application classes that register their own `execute` (class-specific operation, not modelled)
@@ -530,7 +606,8 @@ def run_case(case: dict, guards: Dict[str, bool]) -> dict:
         for cls_name, st in im.payload_hits:
             oracle_hits.append((i, "payload-handled-while-not-running", f"{cls_name} while {st}", cls_name))
         im.payload_hits.clear()
-    return {"impl": impl, "lines": lines, "oracle": oracle_hits, "executed": executed, "n_objs": len(im.objs)}
+    return {"impl": impl, "lines": lines, "oracle": oracle_hits, "executed": executed, "n_objs": len(im.objs),
+            "refused": im.refused_installs, "replaced": im.replaced_installs}
 
 
 # --------------------------------------------------------------------------------------------------- class table cross-check
@@ -551,59 +628,68 @@ def runtime_class_table() -> List[dict]:
 
 # --------------------------------------------------------------------------------------------------- receive() guard probe
 def guard_probe(cls_name: str) -> dict:
-    """Give a not-running instance of the class a well-typed payload through its real `receive` and report whether it
-    processed it (truthy return, or something sent, or its state changed).  Independent of Lean and of the Gen table."""
+    """Give an instance of the class in each operating state a well-typed payload through its real `receive` and report
+    whether it processed it (truthy return, or something sent, or its state changed).  A FRESH node and instance per state,
+    so that what a RUNNING instance did with the payload cannot hide what a not-running one does.  Independent of Lean and
+    of the Gen table."""
     load()
-    from primaite.simulator.network.hardware.nodes.host.computer import Computer
     from primaite.simulator.system.applications.application import Application
     svc, app = registries()
     cls = next((c for c in list(svc.values()) + list(app.values()) if c.__name__ == cls_name), None)
     if cls is None:
         return {"cls": cls_name, "status": "not-registered"}
+    is_app = issubclass(cls, Application)
+    states = ["RUNNING", "CLOSED", "INSTALLING"] if is_app else ["RUNNING", "STOPPED", "PAUSED", "DISABLED", "RESTARTING"]
+    res = {"cls": cls_name, "status": "probed", "states": {}}
+    for st in states + ["RUNNING@node-OFF"]:
+        r = _probe_one(cls, cls_name, st)
+        if r is None:
+            continue
+        if "status" in r:
+            return {"cls": cls_name, **r}
+        res["states"][st] = r
+    return res
+
+
+def _probe_one(cls, cls_name: str, st: str) -> Optional[dict]:
+    from primaite.simulator.network.hardware.node_operating_state import NodeOperatingState
+    from primaite.simulator.network.hardware.nodes.host.computer import Computer
     node = Computer.from_config(config={"type": "computer", "hostname": "probe", "ip_address": "192.168.1.2",
                                         "subnet_mask": "255.255.255.0", "start_up_duration": 0})
     inst = next((o for o in node.software_manager.software.values() if type(o) is cls), None)
     if inst is None:
-        if cls_name == "DatabaseService":
-            pass
         node.software_manager.install(cls)
         inst = next(o for o in node.software_manager.software.values() if type(o) is cls)
     sent = []
     sess = node.session_manager
-    orig = sess.receive_payload_from_software_manager
-
-    def rec(*a, **k):
-        sent.append(1)
-        return False
-    object.__setattr__(sess, "receive_payload_from_software_manager", rec)
+    object.__setattr__(sess, "receive_payload_from_software_manager", lambda *a, **k: (sent.append(1), False)[1])
     nic = node.network_interface[1]
-    orig_send = nic.send_frame
     object.__setattr__(nic, "send_frame", lambda *a, **k: (sent.append(1), False)[1])
     try:
         payload, kwargs = _typed_payload(cls_name, node)
     except Exception as e:  # noqa
-        return {"cls": cls_name, "status": "no-payload", "detail": f"{type(e).__name__}: {e}"}
-    # running baseline: does the payload get processed at all when RUNNING?
-    res = {"cls": cls_name, "status": "probed", "states": {}}
-    is_app = isinstance(inst, Application)
-    states = ["RUNNING", "CLOSED", "INSTALLING"] if is_app else ["RUNNING", "STOPPED", "PAUSED", "DISABLED", "RESTARTING"]
+        return {"status": "no-payload", "detail": f"{type(e).__name__}: {e}"}
     enum = type(inst.operating_state)
-    for st in states:
+    if st == "RUNNING@node-OFF":
+        inst.operating_state = enum["RUNNING"]
+        node.operating_state = NodeOperatingState.OFF
+    else:
         inst.operating_state = enum[st]
-        sent.clear()
-        before = _snapshot(inst)
-        try:
-            ret = inst.receive(payload=payload, session_id="probe-session", **kwargs)
-            err = None
-        except Exception as e:  # noqa
-            ret, err = None, f"{type(e).__name__}"
-        after = _snapshot(inst)
-        res["states"][st] = {"ret": bool(ret), "sent": len(sent), "changed": before != after, "err": err}
-    return res
+    sent.clear()
+    before = _snapshot(inst)
+    try:
+        ret = inst.receive(payload=payload, session_id="probe-session", **kwargs)
+        err = None
+    except Exception as e:  # noqa
+        ret, err = None, f"{type(e).__name__}"
+    after = _snapshot(inst)
+    return {"ret": bool(ret), "sent": len(sent), "changed": before != after, "err": err}
 
 
 def _snapshot(inst) -> str:
-    skip = {"sys_log", "software_manager", "file_system", "folder", "parent"}
+    # `_active` (FTPServiceABC): "transmitted this timestep" flag, set before the running-guard by every FTP client entry
+    # point, cleared by pre_timestep and read by describe_state only while RUNNING — not payload handling (see design note)
+    skip = {"sys_log", "software_manager", "file_system", "folder", "parent", "_active"}
     out = {}
     for k, v in list(inst.__dict__.items()) + list((getattr(inst, "__pydantic_private__", None) or {}).items()):
         if k in skip or k == "operating_state":
@@ -663,7 +749,7 @@ def _typed_payload(cls_name: str, node):
         return FTPPacket(ftp_command=FTPCommand.PORT, ftp_command_args=21, status_code=FTPStatusCode.OK), kw
     if cls_name in ("C2Beacon", "C2Server"):
         from primaite.simulator.network.protocols.masquerade import C2Packet
-        from primaite.simulator.system.applications.red_applications.c2 import C2Payload
+        from primaite.simulator.system.applications.red_applications.c2.abstract_c2 import C2Payload
         return C2Packet(masquerade_protocol="tcp", masquerade_port=80, keep_alive_frequency=5, payload_type=C2Payload.KEEP_ALIVE), kw
     if cls_name in ("DatabaseService",):
         return {"type": "disconnect", "connection_id": "c"}, kw
